@@ -234,7 +234,16 @@ impl<'r, 'c, 's, W: Write> Serializer for DatumSerializer<'r, 'c, 's, W> {
 
 	fn serialize_bytes(self, v: &[u8]) -> Result<Self::Ok, Self::Error> {
 		match self.schema_node {
-			SchemaNode::Bytes | SchemaNode::String => self.state.write_length_delimited(v),
+			SchemaNode::Bytes => self.state.write_length_delimited(v),
+			SchemaNode::String => {
+				// An Avro string has to be valid UTF-8
+				std::str::from_utf8(v).map_err(|e| {
+					SerError::custom(format_args!(
+						"Can't serialize &[u8] as String: it is not valid UTF-8: {e}"
+					))
+				})?;
+				self.state.write_length_delimited(v)
+			}
 			SchemaNode::Fixed(Fixed { size, .. }) => {
 				if *size != v.len() {
 					Err(SerError::new(
